@@ -41,6 +41,26 @@ def mon_c01(run, world=None):
     # loaded / pending work profiles hold resources too (Clockwork): then only the capacity bound is checked here,
     # the exact ledger equality is C04's
     has_profiles = bool(world) and any("loading_strategies" in p for p in world["workload"]["profiles"])
+    # the capacity enforced must be the capacity CONFIGURED in the cluster description
+    if world:
+        conf = {}
+        for p in world["workers"]:
+            for w in p["workers"]:
+                agg = {}
+                for r in w["resources"]:
+                    n = r["name"].split(":")[0]
+                    agg[n] = agg.get(n, 0) + r["quantity"]
+                conf[w["name"]] = agg
+        for e in run["log"]:
+            if e[0] == "cluster":
+                for pool in e[1]:
+                    for (wname, res) in pool[2]:
+                        agg = {}
+                        for (rn, _i, q) in res:
+                            agg[rn] = agg.get(rn, 0) + q
+                        if wname in conf and agg != conf[wname]:
+                            bad.append("worker %s was built with resources %s, the cluster description configures %s"
+                                       % (wname, agg, conf[wname]))
     resident = {}          # task -> (worker, request by name)
     for e in run["log"]:
         if e[0] != "worker" or e[5] != "ok":
